@@ -60,13 +60,6 @@ Definition dummy_item : item :=
 Definition item_at (st : bstate) (i : nat) : item := nth i (b_items st) dummy_item.
 Definition lf_at (st : bstate) (l : nat) : option lfile := nth_error (b_lfs st) l.
 
-Fixpoint upd {A} (l : list A) (n : nat) (x : A) : list A :=
-  match l, n with
-  | [], _ => []
-  | _ :: t, O => x :: t
-  | h :: t, S k => h :: upd t k x
-  end.
-
 Definition set_lf (st : bstate) (l : nat) (f : lfile) : bstate :=
   {| b_items := b_items st; b_sets := b_sets st; b_phys := b_phys st; b_lfs := upd (b_lfs st) l f |}.
 
@@ -213,6 +206,9 @@ Definition add_common (hc : bool) (st : bstate) (l : nat) (ty : nat) (name : raw
       end
   end.
 
+Definition set_item (st : bstate) (i : nat) (it : item) : bstate :=
+  {| b_items := upd (b_items st) i it; b_sets := b_sets st; b_phys := b_phys st; b_lfs := b_lfs st |}.
+
 (* LogicalFile.next_available_origin_ref *)
 Fixpoint bump (fuel : nat) (n : Z) (refs : list (option Z)) : Z :=
   match fuel with
@@ -232,6 +228,40 @@ Definition attr_index (ty : nat) (pyname : list Z) : nat :=
      match l with [] => k | a :: r => if list_eqb (ad_name a) pyname then k else go r (S k) end) (td_attrs (tdef_at ty)) 0%nat.
 
 Definition str_file_id : list Z := [102; 105; 108; 101; 95; 105; 100].                 (* "file_id" *)
+Definition str_file_set_number : list Z := [102;105;108;101;95;115;101;116;95;110;117;109;98;101;114].   (* "file_set_number" *)
+
+(* OriginItem tail: in high-compatibility mode an unspecified FILE-SET-NUMBER is the ordinal in the set
+   (outside the mode it is random: the harness always supplies it) *)
+Definition origin_fsn_default (hc : bool) (st : bstate) (sid iid : nat) : bstate :=
+  let it := item_at st iid in
+  let fi := attr_index T_ORIGIN str_file_set_number in
+  match fst (nth fi (i_attrs it) (SPNone, None)) with
+  | SPNone => if hc then
+                set_item st iid {| i_ty := i_ty it; i_set := i_set it; i_name := i_name it; i_origin := i_origin it; i_copy := i_copy it;
+                                   i_attrs := upd (i_attrs it) fi (SPScalar (SInt (zlen (s_items (set_at st sid)))), None);
+                                   i_dataset := i_dataset it; i_cast := i_cast it |}
+              else st
+  | _ => st
+  end.
+
+Fixpoint fill_some (mine : list nat) (o : Z) (k : nat) (items : list item) : list item :=
+  match items with
+  | [] => []
+  | it :: r => (if existsb (Nat.eqb k) mine then fill_origin o it else it) :: fill_some mine o (S k) r
+  end.
+
+(* the first origin of a logical file: every item without origin in the sets of the logical file's registry, and the
+   header, take its reference *)
+Definition origin_backfill (st : bstate) (l : nat) (f1 : lfile) (iid : nat) (new_ref : Z) : bstate :=
+  let f3 := match lf_at st l with Some x => x | None => f1 end in
+  if Nat.eqb (length (lf_origins st f3)) 1 then
+    let o := match i_origin (item_at st iid) with Some z => z | None => new_ref end in
+    let mine := concat (map (fun '(_, d) => concat (map (fun '(_, sid) => s_items (set_at st sid)) d)) (l_reg f3)) in
+    let st4 := {| b_items := fill_some mine o 0 (b_items st); b_sets := b_sets st; b_phys := b_phys st; b_lfs := b_lfs st |} in
+    let f4 := {| l_hid := l_hid f3; l_seq := l_seq f3; l_ident := l_ident f3; l_fh_origin := Some o;
+                 l_reg := l_reg f3; l_nofmt := l_nofmt f3; l_data := l_data f3 |} in
+    set_lf st4 l f4
+  else st.
 
 (* add_origin *)
 Definition add_origin (hc : bool) (st : bstate) (l : nat) (name : raw) (sn : oname) (origin_arg : raw) (kw : list (nat * praw))
@@ -258,16 +288,7 @@ Definition add_origin (hc : bool) (st : bstate) (l : nat) (name : raw) (sn : ona
              at its position in the constructor call) *)
           let '(st3, out) := add_common hc st2 l T_ORIGIN name sn (RInt new_ref) (fun _ _ => Some new_ref) kw None None in
           match out with
-          | Accepted (Some iid) =>
-              let f3 := match lf_at st3 l with Some x => x | None => f1 end in
-              if Nat.eqb (length (lf_origins st3 f3)) 1 then
-                (* back-fill: every item without origin in the logical AND the physical registry, and the header *)
-                let o := match i_origin (item_at st3 iid) with Some z => z | None => new_ref end in
-                let st4 := {| b_items := map (fill_origin o) (b_items st3); b_sets := b_sets st3; b_phys := b_phys st3; b_lfs := b_lfs st3 |} in
-                let f4 := {| l_hid := l_hid f3; l_seq := l_seq f3; l_ident := l_ident f3; l_fh_origin := Some o;
-                             l_reg := l_reg f3; l_nofmt := l_nofmt f3; l_data := l_data f3 |} in
-                (set_lf st4 l f4, out)
-              else (st3, out)
+          | Accepted (Some iid) => (origin_backfill (origin_fsn_default hc st3 sid iid) l f1 iid new_ref, out)
           | _ => (st3, out)
           end
       end
@@ -368,9 +389,6 @@ Definition add_lf (hc : bool) (st : bstate) (hid : raw) (seq : raw) : bstate * o
   | RStr _ _, RBool _ => (st, Rejected EOther)       (* bool is an int: outside the model *)
   | _, _ => (st, Rejected EType)
   end.
-
-Definition set_item (st : bstate) (i : nat) (it : item) : bstate :=
-  {| b_items := upd (b_items st) i it; b_sets := b_sets st; b_phys := b_phys st; b_lfs := b_lfs st |}.
 
 (* later assignment obj.<attr>.value = x / obj.<attr>.units = u *)
 Definition assign (hc : bool) (st : bstate) (i : nat) (idx : nat) (units : bool) (r : raw) : bstate * outcome :=
